@@ -27,7 +27,7 @@ SHARDS = {'quick': 16, 'thorough': 16}
 NCASES = {'quick': 1600, 'thorough': 50000}
 MIN_NONTRIVIAL = {'quick': 600, 'thorough': 20000}
 TIME_CAP = {'quick': 50, 'thorough': 780}
-REQUIRED_CLASSES = ['value-zero', 'value-negative', 'value-positive', 'value-false', 'value-true', 'value-none',
+REQUIRED_CLASSES = ['edge:zero-in-other-unit', 'edge:zero-same-dimension', 'edge:zero-offset-temperature', 'edge:zero-other-dimension', 'value-zero', 'value-negative', 'value-positive', 'value-false', 'value-true', 'value-none',
                     'value-empty-string', 'value-string', 'modification-typed', 'modification-untyped',
                     'unit-omitted', 'unit-same-as-definition', 'unit-different-prefix', 'unit-compound', 'unit-custom',
                     'unit-conversion-factor-not-1', 'unitless-node', 'declaration', 'definition',
@@ -104,9 +104,12 @@ def cases(rng, tier, shard, nshards, ctx):
         for name, prog, documented in doc_examples():
             yield dict(prog=prog, r=1, plain=True)
             yield dict(prog=prog, r=rng.randrange(1 << 30))
-    for _ in range(NCASES[tier] // nshards):
+    from vt.props import dip_edge
+    for i in range(NCASES[tier] // nshards):
         fl = rng.choices(names, weights)[0]
         yield dict(prog=C.gen_case_prog(rng, fl), r=rng.randrange(1 << 30))
+        if i % 8 == 0:
+            yield dip_edge.gen_c14(rng)
 
 
 # ---------------------------------------------------------------------------------------------- observation
@@ -195,6 +198,12 @@ def jobs(r):
 # ---------------------------------------------------------------------------------------------- oracle
 
 def run_case(case, ctx):
+    if case.get('edge'):
+        from vt.props import dip_edge
+        out = dip_edge.run_c14(case, ctx)
+        if ctx.get('hyg') is not None and ctx['hyg'].check_restore():
+            out['monitors']['table_leaks_restored'] = 1
+        return out
     prog = case['prog']
     mon = {'table_hygiene_checks': 0, 'table_leaks_restored': 0, 'parses_under_step_guard': 0}
     rend = C.render(prog, case['r'], plain=bool(case.get('plain')))
